@@ -385,7 +385,7 @@ func (e *shEnv) lawsC01(c *shCase, out *shaping.Output, n int) {
 		if j < len(out.Glyphs) {
 			next := out.Glyphs[j].ClusterIndex
 			if (!rtl && next < g.ClusterIndex) || (rtl && next > g.ClusterIndex) {
-				r.Violation("C01:clusters-not-monotone", c, fmt.Sprintf("cluster %d followed by %d (rtl=%v)", g.ClusterIndex, next, rtl))
+				r.Violation("C01:clusters-not-monotone"+shMonotoneClass(c, rtl), c, fmt.Sprintf("cluster %d followed by %d (rtl=%v)", g.ClusterIndex, next, rtl))
 				return
 			}
 		}
@@ -441,7 +441,7 @@ func (e *shEnv) shapeHB(c *shCase) {
 		if c.Level != int(harfbuzz.Characters) && i > 0 {
 			prev := b.Info[i-1].Cluster
 			if (!rtl && info.Cluster < prev) || (rtl && info.Cluster > prev) {
-				r.Violation("C01:hb:clusters-not-monotone", c, fmt.Sprintf("cluster %d after %d at level %d (rtl=%v)", info.Cluster, prev, c.Level, rtl))
+				r.Violation("C01:hb:clusters-not-monotone"+shMonotoneClass(c, rtl), c, fmt.Sprintf("cluster %d after %d at level %d (rtl=%v)", info.Cluster, prev, c.Level, rtl))
 				return
 			}
 		}
@@ -668,6 +668,21 @@ func (e *shEnv) font(sf *shFont, maxLen int, full bool) {
 		r.Count("threshold_texts", 1)
 	}
 	r.Count("faces", 1)
+}
+
+// shMonotoneClass narrows the key of a monotonicity violation to the one class seen on the unchanged tree (and in
+// libharfbuzz 6.0.0): a complex-shaper script shaped against its native direction, with a default ignorable in the run
+func shMonotoneClass(c *shCase, rtl bool) string {
+	sc := parseScript(c.Script)
+	if rtl == c18nativeRTL(sc) || c.Dir >= 2 {
+		return ""
+	}
+	for _, r := range c.Text {
+		if c18isDI(r) {
+			return ":non-native-direction-with-default-ignorable"
+		}
+	}
+	return ""
 }
 
 type shLongText struct {
